@@ -859,3 +859,12 @@ func containsI64(xs []int64, v int64) bool {
 	}
 	return false
 }
+
+func containsInt(xs []int, v int) bool {
+	for _, e := range xs {
+		if e == v {
+			return true
+		}
+	}
+	return false
+}
